@@ -67,6 +67,17 @@ let ity_of_string = function
 
 let both s = s ^ "\t" ^ s
 
+(* floats *)
+let z_of_hex s =
+  let sixteen = z_of_int 16 in
+  let acc = ref Z0 in
+  String.iter (fun c -> acc := Z.add (Z.mul !acc sixteen) (z_of_int (hexval c))) s;
+  !acc
+let show_f (r : fres) : string = match fres_obs r with Some b -> hex_of_bytes b | None -> "err"
+(* stands for strconv.AppendFloat on the float of the case: appends the text the harness recorded for the format *)
+let af_of (e : bytes) (f : bytes) : bytes -> float_repr -> z -> z -> bytes =
+  fun dst _ fmt _ -> dst @ (match int_of_z fmt with 101 -> e | 102 -> f | _ -> [])
+
 let run fn (args : string list) : string =
   match fn, args with
   | ("s.esc" | "j.escape"), [h] ->   (* j.escape: the Escape/AppendEscape cases of the main C01 harness, same observable *)
@@ -112,6 +123,23 @@ let run fn (args : string list) : string =
       let fuel = nat_of_int (List.length b + 2) in
       (match json_escapeIndex fuel b (html = "1") with None -> "OUTOFFUEL" | Some r -> string_of_z r)
       ^ "\t" ^ string_of_z (first_index (needs_escape_json (html = "1")) Z0 b)
+  (* floats: the glue around strconv.AppendFloat. The harness prints what strconv.AppendFloat writes for the formats
+     'e' and 'f'; the function handed to both glue models appends the one that the model asks for. Observable: the
+     encoding into an empty buffer and into the buffer [e- *)
+  | "s.float", [bits; u64; u32; he; hf] ->
+      let fr = float_repr_of_bits (z_of_hex u64) (z_of_hex u32) in
+      let af = af_of (bytes_of_hex he) (bytes_of_hex hf) in
+      let pre = bytes_of_hex "5b652d" in
+      let pkg dst = if bits = "32" then pkg_encode_float32 af dst fr else pkg_encode_float64 af dst fr in
+      let std dst = std_float_encode af dst fr (z_of_string bits) false in
+      show_f (pkg []) ^ " " ^ show_f (pkg pre) ^ "\t" ^ show_f (std []) ^ " " ^ show_f (std pre)
+  (* the string option: only encoding/json's quoted path is modelled; {"f": before, } after *)
+  | "s.floatq", [bits; u64; u32; he; hf] ->
+      let fr = float_repr_of_bits (z_of_hex u64) (z_of_hex u32) in
+      let af = af_of (bytes_of_hex he) (bytes_of_hex hf) in
+      "-\t" ^ (match fres_obs (std_float_encode af (bytes_of_hex "7b2266223a") fr (z_of_string bits) true) with
+               | Some b -> hex_of_bytes (b @ bytes_of_hex "7d")
+               | None -> "err")
   | _ -> "-\t-"   (* not modelled here: compared with the oracle only *)
 
 let () =
